@@ -90,6 +90,10 @@ def type_shape(obj, depth=0):
     if depth > 10:
         return '...'
     out = [shape(obj)]
+    ro = getattr(obj, '_readOnly', None)
+    if isinstance(ro, dict):
+        # the initialisers every later clone()/subtype() of this object starts from
+        out.append(('readOnly', sorted((k, repr(v)) for k, v in ro.items())))
     ct = getattr(obj, 'componentType', None)
     if ct is not None and ct is not pbase.noValue:
         if hasattr(ct, 'namedTypes'):
@@ -201,6 +205,57 @@ def history(rep, cases, rng, log=False):
         i = [k for k in range(len(steps)) if shared[k] != alone[k]][0]
         rep.fail('history-dependent' + ('-with-logging' if log else ''), 'call %d of a history gives %s, alone %s' % (i, str(shared[i])[:160], str(alone[i])[:160]),
                  {'kind': 'history', 'steps': [[op, gen.ty_sexp(c.t), gen.val_sexp(c.v), list(m)] for op, c, m in steps]})
+
+
+def fixed_histories(rep):
+    """library-only histories on one schema object: the value-plus-schema encoders and keyword clones are given the
+    schema object first, then the same object guides a decode; the decode must behave as with a fresh schema object"""
+    from pyasn1.type import tag, constraint
+    from pyasn1 import error as perror
+
+    def specs():
+        blob = univ.OctetString().subtype(implicitTag=tag.Tag(tag.tagClassContext, tag.tagFormatSimple, 3))
+        bits = univ.BitString().subtype(implicitTag=tag.Tag(tag.tagClassContext, tag.tagFormatSimple, 4))
+        small = univ.Integer().subtype(subtypeSpec=constraint.ValueRangeConstraint(0, 10))
+        return [('blob', blob, [b'\x83\x03abc', b'\x04\x03abc']), ('bits', bits, [b'\x84\x02\x07\x80', b'\x03\x02\x07\x80']),
+                ('small', small, [b'\x02\x01\x05', b'\x02\x02\x01\xf4'])]
+
+    def outcome(spec, data):
+        try:
+            v, rest = codec.DEC['ber'].decode(data, asn1Spec=spec)
+            return ('ok', repr(v.tagSet), v.prettyPrint(), codec.ENC['ber'].encode(v).hex(), rest.hex())
+        except perror.PyAsn1Error:
+            return ('liberr',)
+        except Exception as e:  # noqa
+            return ('leak', type(e).__name__)
+
+    priors = {
+        'cer-encode-long-bare-value': lambda sp: codec.ENC['cer'].encode(b'x' * 1500, asn1Spec=sp),
+        'ber-encode-chunked-bare-value': lambda sp: codec.ENC['ber'].encode(b'y' * 40, asn1Spec=sp, maxChunkSize=7),
+        'cer-encode-long-bit-text': lambda sp: codec.ENC['cer'].encode('1' * 9000, asn1Spec=sp),
+        'der-encode-bare-int': lambda sp: codec.ENC['der'].encode(7, asn1Spec=sp),
+        'keyword-clone-wider': lambda sp: sp.clone(subtypeSpec=constraint.ValueRangeConstraint(-1000, 1000)),
+        'keyword-clone-retagged': lambda sp: sp.clone(tagSet=tag.initTagSet(tag.Tag(tag.tagClassPrivate, tag.tagFormatSimple, 9))),
+        'subtype-wider': lambda sp: sp.subtype(subtypeSpec=constraint.ValueSizeConstraint(0, 100000)),
+    }
+    for pname, prior in sorted(priors.items()):
+        for (name, spec, inputs), (_, fresh, _) in zip(specs(), specs()):
+            before = type_shape(spec)
+            try:
+                prior(spec)
+            except Exception:  # noqa
+                pass
+            rep.count('fixed-histories')
+            rep.case('fixed-history %s %s' % (pname, name), nontrivial=True)
+            if type_shape(spec) != before:
+                rep.fail('call-mutates-spec:' + pname, '%s changed the schema object %s it was given' % (pname, name),
+                         {'kind': 'fixed-history', 'prior': pname, 'spec': name})
+                continue
+            for data in inputs:
+                a, b = outcome(spec, data), outcome(fresh, data)
+                if a != b:
+                    rep.fail('history-dependent:' + pname, 'decode of %s with %s after %s gives %s, with a fresh schema %s'
+                             % (data.hex(), name, pname, a, b), {'kind': 'fixed-history', 'prior': pname, 'spec': name, 'bytes': data.hex()})
 
 
 def interleave(rep, cases, rng):
@@ -320,6 +375,7 @@ def run(rep, tier, seed):
         check_encode_purity(rep, case, rng)
         if len(pool) < 400:
             pool.append(case)
+    fixed_histories(rep)
     for i in range(60 if tier == 'quick' else 3000):
         history(rep, rng.sample(pool, min(len(pool), 6)), rng)
     for i in range(60 if tier == 'quick' else 3000):
